@@ -31,18 +31,21 @@ from pv.codec import D0, mkdt
 ASSUMPTIONS = [
     'cells are float64: NaN, finite floats (incl. -0.0, 1e300) and +-inf (inf is a value here: np.isnan / pandas treat it as present)',
     'axis is not passed or passed as 0 (axis=1 is swallowed by the loops decorator and the statement does not mention it, DESIGN section 4)',
-    'a numeric method is only combined with limit=None (fillna(value, limit=k) fills the first k NaN overall; DESIGN section 4: not treated as a defect)',
+    'sub-checks fillna / vec_enum combine a numeric method only with limit=None: WHICH NaN a constant fills under a limit is not claimed (fillna(value, limit=k) '
+    'fills the first k NaN of a column; DESIGN section 4). Sub-check const_limit covers constants with limit 1/2/3 and asserts only the unconditional clauses: '
+    'array result == .values of every pandas result, non-NaN cells unchanged, every filled cell equals a constant of the list (or, after ffill/bfill in the '
+    'list, a value of its column), shape kept, arguments unmodified',
     "'ffill_na' / 'ffill_0' stand alone or first in a list (later in a list they read the last valid index of the ORIGINAL input; DESIGN section 4)",
     "'ffill_na' / 'ffill_0' on a column without any valid observation: the column may stay NaN or (ffill_0) become all 0 - the statement does not say",
     'pandas inputs have a non-decreasing index: the default RangeIndex, a daily DatetimeIndex, integer labels not starting at 0, dates with gaps, '
-    'and (see K5/K6 for the two exceptions) repeated integer / date labels; column labels may be unsorted, prefixes of one another, duplicated or integers. '
+    'and (with the two restrictions below) repeated integer / date labels; column labels may be unsorted, prefixes of one another, duplicated or integers. '
     'Decreasing / unsorted indexes are not generated (ffill_na/ffill_0 and edge compare labels; a time series is ordered)',
     'identity of the result is not asserted: df_fillna returns the argument itself for method None / [] (documented) and for ffill_na / ffill_0 on a series '
     'without a valid observation; only "values as specified, argument unchanged by the call" is demanded (no-op inputs carry the labels no_nan / noop_with_method)',
-    'CANDIDATE DEFECT excluded by construction (K5): nona(x, edge=-1) on a pandas object whose integer index does not start at 0 slices by position with a label '
-    '(_df_slice: df[lb:ub]) and returns the wrong rows; edge=-1 is generated for RangeIndex / DatetimeIndex objects only',
-    'CANDIDATE DEFECT excluded by construction (K6): with repeated index labels ffill_na / ffill_0 (res.index > last_valid) and nona(edge=+-1) (label slice) treat the rows '
-    'sharing the boundary label as one; tail fills and edge are generated with unique labels only',
+    'domain restriction (K5): edge=-1 is generated for RangeIndex / DatetimeIndex objects only. edge is documented in the nona docstring, not in the statement, and on an '
+    'integer index that does not start at 0 it slices by position with a label: nona(pd.Series([nan,1,nan,2,nan], [10,11,12,13,14]), edge=-1) is empty (_df_slice: df[lb:ub])',
+    'domain restriction (K6): ffill_na / ffill_0 and edge=+-1 are generated with unique index labels only. Repeated labels are outside "float vectors and 2-d frames"; '
+    'there the rows sharing the boundary label count as one: df_fillna(pd.Series([1,2,nan], [d0,d1,d1]), "ffill_na") gives [1,2,2] (res.index > last_valid compares labels)',
     'zero-COLUMN frames are not generated (the statement speaks of frames of any length; ffill_0 and nona() raise on an n x 0 array)',
     'on frames every fill works column by column; rows are dropped only when the whole row is NaN',
     'interpolation methods, pad/backfill spellings, date methods and list/dict containers of timeseries are outside the statement and not generated',
@@ -52,7 +55,7 @@ ASSUMPTIONS = [
     'GENUINE DEFECT excluded by construction (K4): nona(ndarray, edge=+-1) ignores edge (drops every all-NaN row); edge is generated for pandas inputs only',
 ]
 
-# the known-defect classes the generators avoid; remove a name once /repo carries the fix and the class is searched again
+# input classes the generators avoid: K4 a known defect (remove the name once /repo carries the fix), K5 / K6 domain restrictions (see ASSUMPTIONS)
 EXCLUDED = {'K4', 'K5', 'K6'}
 
 NAN = float('nan')
@@ -644,6 +647,78 @@ def run_nona(spec):
     return dict(nt=bool(nt), cls=cls)
 
 
+# ----------------------------------------------------------------------------- sub-check const_limit
+
+def run_const_limit(spec):
+    """constants under a limit: only the unconditional clauses (see ASSUMPTIONS); methods are constants, 'ffill', 'bfill' - no row drops"""
+    import numpy as np
+    from pyg_base import df_fillna
+    dim, methods, limit = spec['dim'], spec['methods'], spec['limit']
+    if limit is None or not any(_is_num(m) for m in methods) or any(not _is_num(m) and m not in FILLS for m in methods):
+        raise ValueError('const_limit spec needs a limit, a constant and only constants / ffill / bfill')
+    cols = _spec_cols(spec)
+    ncols, n = len(cols), len(cols[0])
+    consts = [float(m) for m in methods if _is_num(m)]
+    copies = any(m in FILLS for m in methods)
+    method = methods[0] if spec.get('bare') and len(methods) == 1 else list(methods)
+    args = '%r, limit=%r' % (method, limit)
+    results = {}
+    filled = 0
+    for kind in spec['kinds']:
+        x = _build(cols, dim, kind, spec)
+        before = _snap(x)
+        what = _what('df_fillna', x, args)
+        res = call(what, df_fillna, x, method, limit=limit)
+        if kind == 'arr':
+            check(isinstance(res, np.ndarray), '%s: an ndarray went in, %s came out', what, type(res).__name__)
+        else:
+            check(type(res) is type(x), '%s: a %s went in, %s came out', what, type(x).__name__, type(res).__name__)
+        got = _columns_of(what, res, dim, ncols)
+        check(len(got[0]) == n, '%s: %s rows went in, %s came out', what, n, len(got[0]))
+        for j, (g, c) in enumerate(zip(got, cols)):
+            allowed = consts + ([v for v in c if not _isnan(v)] if copies else [])
+            for i, (a, b) in enumerate(zip(g, c)):
+                if not _isnan(b):
+                    check(_same_cell(a, b), '%s: the non-NaN cell at row %s column %s changed from %s to %s', what, i, j, b, a)
+                elif not _isnan(a):
+                    filled += 1
+                    check(any(_same_cell(a, v) for v in allowed), '%s: the NaN at row %s column %s was filled with %s, which is neither the constant nor a value of the column',
+                          what, i, j, a)
+        if kind != 'arr':
+            check(list(res.index) == _labels(kind, n, spec), '%s: index changed to %s', what, list(res.index))
+            if dim == 2:
+                check(list(res.columns) == list(x.columns), '%s: columns changed from %s to %s', what, list(x.columns), list(res.columns))
+        check(_snap(x) == before, '%s modified its argument: now %s', what, short(x.tolist() if isinstance(x, np.ndarray) else x.values.tolist(), 300))
+        results[kind] = got
+    ref = 'arr' if 'arr' in results else spec['kinds'][0]
+    for kind in results:
+        if kind != ref:
+            d = _diff(results[ref], results[kind])
+            if d is not None:
+                raise Violation('df_fillna(np.array(%s), %s): the %s result differs from the .values of the %s-indexed pandas result: %s; %s vs %s'
+                                % (short(_build(cols, dim, 'arr').tolist(), 200), args, 'array' if ref == 'arr' else ref, kind, d,
+                                   short(results[ref], 200), short(results[kind], 200)))
+    pcls, info = _pattern_classes(cols, dim)
+    nnan = sum(1 for c in cols for v in c if _isnan(v))
+    left = sum(1 for c in results[ref] for v in c if _isnan(v))
+    cls = ['dim=%i' % dim, 'limit=%s' % limit, 'nmethods=%i' % len(methods)] + [k for k in pcls if k in ('empty', 'all_nan', 'no_nan', 'rows>=64', 'allnan_row_2d')]
+    cls += _object_classes(spec, dim)
+    if len(methods) == 1:
+        cls.append('single_constant_bare' if spec.get('bare') else 'single_constant_in_list')
+    if copies:
+        cls.append('constant_with_ffill_or_bfill')
+    if any(m == 0 for m in consts):
+        cls.append('m=const_zero')
+    if left:
+        cls.append('limit_left_nan_unfilled')                 # the limit mattered: this is where a limit-blind path differs
+    if dim == 2 and ncols > 1:
+        cls.append('ncols>1')
+    nt = nnan > limit
+    if nt:
+        cls.append('more_nan_than_limit')
+    return dict(nt=nt, cls=cls)
+
+
 # ----------------------------------------------------------------------------- generators
 
 _VAL = st.sampled_from([float(i) for i in range(1, 10)] * 2 + [0.0, -0.0, -1.5, 2.5, 1e300, 5e-324, 9007199254740993.0, 'inf', '-inf'])
@@ -804,6 +879,28 @@ def _nona_case(draw, tier):
     return spec
 
 
+@st.composite
+def _const_limit_case(draw, tier):
+    max_runs = 5 if tier == 'quick' else 7
+    dim = draw(st.sampled_from([1, 1, 2, 2]))
+    cols = draw(_columns(dim, max_runs, draw(st.integers(0, 9)) == 0))
+    limit = draw(st.sampled_from([1, 1, 2, 3]))
+    shape = draw(st.sampled_from(['list', 'single', 'single', 'list']))
+    if shape == 'single':
+        methods = [draw(_CONST)]
+    else:
+        methods = draw(st.lists(st.one_of(_CONST, st.sampled_from(FILLS)), min_size=2, max_size=3))
+        if not any(_is_num(m) for m in methods):
+            methods[draw(st.integers(0, len(methods) - 1))] = draw(_CONST)
+    spec = dict(cols=cols, dim=dim, methods=methods, bare=draw(st.booleans()), limit=limit, kinds=['arr', 'range', 'dt', 'ix'],
+                ix=dict(draw(st.sampled_from(_IX))))
+    if dim == 2:
+        names = draw(st.sampled_from(_COLNAMES))
+        if names:
+            spec['colnames'] = names
+    return spec
+
+
 # ----------------------------------------------------------------------------- exhaustive vectors (thorough tier)
 
 def _programs():
@@ -856,12 +953,19 @@ SUBS = [
                                  'ends_valid_interior_nan': 0.05, 'tail_fill_ends_valid': 0.005, 'm=const_zero': 0.02, 'zero_cell': 0.05,
                                  'limit_with_drop': 0.08, 'tail_fill_trailing_run>limit': 0.005, 'axis0_positional': 0.1, 'noop_with_method': 0.05,
                                  'allnan_column_in_frame': 0.05, 'emptied_before_last_method': 0.001, 'rows=1': 0.008}),
-    Sub('nona_fn', _nona_case, run_nona, quick=1600, thorough=4000,
+    Sub('nona_fn', _nona_case, run_nona, quick=1200, thorough=4000,
         rule='the same vectors / frames / index and column variants through nona(x) (edge None on every object; edge 1 / -1 on the pandas objects with unique '
              'labels). Oracle: exactly the all-NaN rows go (edge 1: only those after the last valid row, edge -1: only those before the first), labels kept, '
              'array == .values, argument unchanged. non-trivial = the input has an all-NaN row or is empty',
         floor=0.3, class_floors={'edge_keeps_allnan_rows': 0.05, 'allnan_row_2d': 0.1, 'rows_dropped': 0.3, 'rows>=64': 0.08, 'ix_duplicate_labels': 0.1,
                                  'ix=int_unique': 0.1, 'cols_duplicated': 0.03, 'nothing_to_drop': 0.03}),
+    Sub('const_limit', _const_limit_case, run_const_limit, quick=1200, thorough=3000,
+        rule='the same vectors / frames / index and column variants with a numeric constant under limit 1/2/3 - alone (bare or in a list) or in a list of 2-3 '
+             'with ffill/bfill/other constants. Oracle (deliberately not: which NaN get filled): the ndarray result equals the .values of all three pandas '
+             'results cell for cell, non-NaN cells unchanged, every filled cell is a constant of the list (or a value of its column when the list also fills), '
+             'shape / index / columns kept, arguments unmodified. non-trivial = more NaN than limit',
+        floor=0.3, class_floors={'limit_left_nan_unfilled': 0.3, 'single_constant_bare': 0.1, 'single_constant_in_list': 0.1,
+                                 'constant_with_ffill_or_bfill': 0.05, 'ncols>1': 0.1, 'm=const_zero': 0.1}),
     EnumSub('vec_enum', enum_vectors, run_fillna, thorough_only=True, chunks=64,
             rule='every NaN pattern of every vector length 0-%i (position-coded values) x every program: 7 single methods, 25 ordered pairs of '
                  'ffill/bfill/constant/nona/fnna, 10 pairs headed by ffill_na/ffill_0, x limit None/1/2/3 (constant only with None); same oracle as fillna'
